@@ -285,10 +285,10 @@ From Prophy Require Import ApiSpec.
 Definition ares_code (r : ares) : Z :=
   match r with ADone _ => 0 | ARaise EProphy => 1 | ARaise EIndex => 5 | ARaise EValue => 6 | AStuck => 7 end.
 
-Fixpoint api_history (t : ty) (st : value * value) (k : Z) (hs : list hop) (obs : list (Z * value * value)) : list Z :=
+Fixpoint api_history (t : ty) (st : value * value) (k : Z) (hs : list hitem) (obs : list (Z * value * value)) : list Z :=
   match hs, obs with
   | h :: hr, (c, oa, ob) :: or =>
-      let '(st', r) := hstep t st h in
+      let '(st', r) := hitem_step t st h in
       let ea := value_eqb (fst st') oa in
       let eb := value_eqb (snd st') ob in
       if (ares_code r =? c) && ea && eb then api_history t st' (k + 1) hr or
@@ -296,7 +296,7 @@ Fixpoint api_history (t : ty) (st : value * value) (k : Z) (hs : list hop) (obs 
   | _, _ => []
   end.
 
-Definition api_history_case (t : ty) (hs : list hop) (obs : list (Z * value * value)) : list Z :=
+Definition api_history_case (t : ty) (hs : list hitem) (obs : list (Z * value * value)) : list Z :=
   api_history t (default t, default t) 0 hs obs.
 
 (* C01 / C19: a message nobody touched encodes to the canonical image of the default value, in both orders,
